@@ -261,6 +261,8 @@ func TestCheck(t *testing.T) {
 	realUploader(r)
 	earlyOK(r)
 	overlapping(r)
+	manyDevices(r)
+	grpcOverlap(r)
 	stress(r)
 	linearizable(r)
 
@@ -273,6 +275,8 @@ func TestCheck(t *testing.T) {
 	r.Require("uploads_failed_with:deadline-exceeded", 20)
 	r.Require("uploads_failed_with:canceled", 20)
 	r.Require("grpc_streams_ok_without_response", 10)
+	r.Require("many_devices_cases", 32)
+	r.Require("grpc_overlapping_refreshes", 20)
 }
 
 func scripted(r *vkit.Run) {
